@@ -432,6 +432,18 @@ func (d *idxDesc) constant() constant.Constant {
 }
 
 func gepIR(pipeline string, nm map[string]*types.StructType, a []string) string {
+	return gepIRWant(pipeline, nm, a, "")
+}
+
+func firstLineOf(s string) string {
+	if i := strings.IndexByte(s, '\n'); i >= 0 {
+		return s[:i]
+	}
+	return s
+}
+
+// gepIRWant: as gepIR; the pipeline "asmexpr" (constant expression through the parser) needs the expected type (hex) to spell the text
+func gepIRWant(pipeline string, nm map[string]*types.StructType, a []string, want string) string {
 	elem := parseTyIn(nm, a[0])
 	src := parseTyIn(nm, a[1])
 	var ds []*idxDesc
@@ -500,22 +512,29 @@ func gepIR(pipeline string, nm map[string]*types.StructType, a []string) string 
 			}
 			return hexOut([]byte(m.Funcs[0].Blocks[0].Insts[0].(value.Value).Type().String()))
 		}
+		// constant expression in the parser: the parser checks the type written in front of a constant expression against the type it computes
+		// itself, so the expression is given as a global initialiser of the EXPECTED type: accepted <=> the parser computed that type
+		if want == "" {
+			return "skip"
+		}
 		var base string
 		if _, ok := src.(*types.PointerType); ok {
 			base = fmt.Sprintf("%s null", src)
 		} else {
 			base = fmt.Sprintf("%s zeroinitializer", src)
 		}
-		// constant expression in the parser: use it as a function's prefix data? simplest: as a global initialiser of its own type
 		expr := fmt.Sprintf("getelementptr (%s, %s", elem, base)
 		for _, s := range idxs {
 			expr += ", " + s
 		}
 		expr += ")"
-		// the result type must be spelled in the text: take it from the constant pipeline, then check the parser's own computation
-		fmt.Fprintf(&sb, "define void @f() {\n\t%%r = freeze i1 icmp eq (i64 ptrtoint (i8* null to i64), i64 0)\n\tret void\n}\n")
-		_ = expr
-		return "skip"
+		wantTy := string(unhexArg(want))
+		fmt.Fprintf(&sb, "@r = global %s %s\n", wantTy, expr)
+		m, err := asm.ParseString("x.ll", sb.String())
+		if err != nil {
+			return "error " + hexOut([]byte(firstLineOf(err.Error())))
+		}
+		return hexOut([]byte(m.Globals[0].Init.Type().String()))
 	}
 	return "skip"
 }
@@ -598,8 +617,35 @@ func init() {
 		for i, pt := range sig.Params {
 			ps = append(ps, ir.NewParam(fmt.Sprintf("a%d", i), pt))
 		}
-		callee := ir.NewFunc("callee", sig.RetType, ps...)
-		callee.Sig.Variadic = sig.Variadic
+		fn := ir.NewFunc("callee", sig.RetType, ps...)
+		fn.Sig.Variadic = sig.Variadic
+		// the callee VALUE: the function itself, or any other value of type pointer-to-signature
+		kind := "func"
+		if len(a) > 3 {
+			kind = a[3]
+		}
+		f := ir.NewFunc("f", types.Void)
+		b, b1, b2 := f.NewBlock("entry"), f.NewBlock("b1"), f.NewBlock("b2")
+		var callee value.Value = fn
+		pty := types.NewPointer(sig)
+		switch kind {
+		case "func":
+		case "param":
+			callee = ir.NewParam("fp", pty)
+		case "load":
+			slot := ir.NewGlobal("slot", pty)
+			ld := b.NewLoad(pty, slot)
+			ld.SetName("fp")
+			callee = ld
+		case "bitcast":
+			callee = constant.NewBitCast(ir.NewFunc("other", types.Void), pty)
+		case "alias":
+			callee = ir.NewAlias("al", fn)
+		case "asm":
+			callee = ir.NewInlineAsm(pty, "nop", "")
+		default:
+			return "FAIL unknown callee kind"
+		}
 		var args []value.Value
 		for _, pt := range sig.Params {
 			args = append(args, constant.NewUndef(pt))
@@ -607,8 +653,6 @@ func init() {
 		for i := 0; i < nextra; i++ {
 			args = append(args, constant.NewInt(types.I32, int64(i)))
 		}
-		f := ir.NewFunc("f", types.Void)
-		b, b1, b2 := f.NewBlock("entry"), f.NewBlock("b1"), f.NewBlock("b2")
 		var text, kw string
 		switch a[0] {
 		case "call":
@@ -619,7 +663,7 @@ func init() {
 			text, kw = b.NewCallBr(callee, args, b1, b2).LLString(), "callbr "
 		}
 		i := strings.Index(text, kw)
-		j := strings.Index(text, " @callee(")
+		j := strings.Index(text, " "+callee.Ident()+"(")
 		if i < 0 || j < 0 {
 			return "FAIL shape " + hexOut([]byte(text))
 		}
@@ -647,8 +691,8 @@ func init() {
 	reg("gep.ok", func(a []string) string {
 		n := len(a)
 		want := a[n-1]
-		for _, pl := range []string{"inst", "expr", "asm"} {
-			got := safe(func([]string) string { return gepIR(pl, map[string]*types.StructType{}, a[:n-1]) }, nil)
+		for _, pl := range []string{"inst", "expr", "asm", "asmexpr"} {
+			got := safe(func([]string) string { return gepIRWant(pl, map[string]*types.StructType{}, a[:n-1], want) }, nil)
 			if got != "skip" && got != want {
 				return "FAIL " + pl + " " + got
 			}
